@@ -392,7 +392,7 @@ func runC05(e *Env) {
 			if k == j && !noAbort {
 				h.Ab = &abortPlan{Kind: pick(r, kinds), When: pick(r, whens), ExtraNext: chance(r, 1, 2), WriteBefore: chance(r, 1, 4)}
 				if strings.HasPrefix(h.Ab.Kind, "AbortWithStatus") {
-					h.Ab.Code = pick(r, []int{401, 403, 404, 500, 503, 200, 200, 204})
+					h.Ab.Code = pick(r, []int{401, 403, 404, 500, 503, 200, 200, 204, 499, 520, 299, 999}) // (also codes without a registered reason phrase)
 					if chance(r, 1, 2) {
 						h.Ab.PreStatus = pick(r, []int{503, 404, 201, 200})
 					}
@@ -649,7 +649,7 @@ func c05Redispatch(t *T) {
 	k := r.IntN(nInner)
 	kind := pick(r, []string{"Abort", "AbortThen", "AbortWithStatus"})
 	extraNext := chance(r, 1, 2)
-	code := pick(r, []int{401, 403, 422})
+	code := pick(r, []int{401, 403, 422, 499, 520})
 	t.Describe(func() any {
 		return map[string]any{"outer_chain_handlers": nOuter, "redispatching_handler": j, "inner_chain_handlers": nInner, "aborting_inner_handler": k, "abort": kind, "Next_after_abort": extraNext}
 	})
@@ -846,7 +846,7 @@ func c05Mounted(t *T) {
 	kind := pick(r, []string{"sub-router", "HandlerFunc"})
 	innerStatus := pick(r, []int{0, 200, 202, 404})
 	innerAborts := chance(r, 1, 3)
-	code := pick(r, []int{401, 403, 503, 200})
+	code := pick(r, []int{401, 403, 503, 200, 599, 299})
 	withMsg := chance(r, 1, 2)
 	useTimeout := chance(r, 1, 3)
 	t.Describe(func() any {
